@@ -500,8 +500,31 @@ func (ss *Package) messageProperties(parent RootSchema, src protoreflect.Message
 		return nil, fmt.Errorf("oneof %s has not been added", pending.JSONName)
 	}
 
+	if err := assertUniquePropertyNames(properties); err != nil {
+		return nil, err
+	}
+	for _, oneof := range exposeOneofs {
+		if err := assertUniquePropertyNames(oneof.Properties); err != nil {
+			return nil, patherr.Wrap(err, oneof.name)
+		}
+	}
+
 	return properties, nil
 
+}
+
+// assertUniquePropertyNames rejects two properties with the same JSON name:
+// descriptors which did not pass through protoc can carry conflicting
+// json_name values, and the property maps and the JSON codec key on that name.
+func assertUniquePropertyNames(properties []*ObjectProperty) error {
+	seen := make(map[string]struct{}, len(properties))
+	for _, prop := range properties {
+		if _, ok := seen[prop.JSONName]; ok {
+			return fmt.Errorf("duplicate property name %q", prop.JSONName)
+		}
+		seen[prop.JSONName] = struct{}{}
+	}
+	return nil
 }
 
 func commentDescription(src protoreflect.Descriptor) string {
